@@ -631,7 +631,7 @@ func ledgerHistory(c *Ctx, id int) {
 	// one history in four runs on a chain whose genesis puts ZNN / QSR within a few reward mints of their maximum supply
 	// (legal: the genesis check demands total <= max), with ten-minute reward epochs so that the contracts' reward mints
 	// (liquidity rewards at the epoch update, CollectReward of pillars / stakers / sentinels) meet the cap inside the history
-	tight := c.Args["caps"] == "tight" || (c.Args["caps"] == "" && id%4 == 2)
+	tight := c.Args["caps"] == "tight" || (c.Args["caps"] == "" && id%4 == 2 && id < 480) // at most 120 per run (thorough tier)
 	tightDesc := ""
 	if tight {
 		restore, desc := ledgerTightCaps(c, id)
